@@ -652,15 +652,19 @@ def _sqrt_resolve(c, x, use_solver=True):
 
 # --------------------------------------------------------------------------- angles
 
-def new_atom(name, kind='input', lo=None, hi=None, val=None):
-    """a real variable v with its (sin, cos) pair; returns (Term v, Term s, Term c)"""
+def new_atom(name, kind='input', lo=None, hi=None, val=None, pair=None):
+    """a real variable v with its (sin, cos) pair; returns (Term v, Term s, Term c).  With `pair` (two z3
+    expressions) the atom is an alias: its sine and cosine ARE those expressions (no fresh variables)."""
     c = ctx()
     v = c.fresh(name)
-    s = c.fresh('sin')
-    co = c.fresh('cos')
-    c.assumptions.append(s * s + co * co == 1)
-    c.assumptions += [s >= -1, s <= 1, co >= -1, co <= 1]
-    c.rules.append((s, 1 - co * co))
+    if pair is not None:
+        s, co = pair
+    else:
+        s = c.fresh('sin')
+        co = c.fresh('cos')
+        c.assumptions.append(s * s + co * co == 1)
+        c.assumptions += [s >= -1, s <= 1, co >= -1, co <= 1]
+        c.rules.append((s, 1 - co * co))
     nm = str(v)
     c.atoms[nm] = (v, s, co)
     c.atom_meta[nm] = dict(kind=kind, lo=lo, hi=hi)
@@ -776,6 +780,43 @@ def _value_axioms_principal(c, t, s, co, lo, hi):
     c.assumptions += [t >= lo, t <= hi]
 
 
+def _canonical(c, t):
+    """the Term rewritten to its normal form modulo the asserted constraints (equal under the assumptions)"""
+    if not c.rules or t.const is not None:
+        return t
+    from .poly import Normalizer, TooBig
+    try:
+        nf, zero = Normalizer(c.rules, 4000).normal_form(t.e)
+    except TooBig:
+        return t
+    if zero:
+        return Term.lift(0)
+    nf = z3.simplify(nf)
+    if z3.is_rational_value(nf):
+        return Term.lift(nf.as_fraction())
+    return Term(nf)
+
+
+def _match_atom(c, tests):
+    """tests: list of (tag, z3 expr); returns the tag of the first expression that normalises to zero modulo the
+    asserted constraints (denominators cleared), else None.  This is the lemma behind the resolution of inverse
+    trigonometric functions: e.g. atan2(y, x) with y*cos(a) - x*sin(a) == 0 is a or a + pi."""
+    if not tests:
+        return None
+    from .poly import which_zero
+    k = which_zero(c.rules, [e for _, e in tests], max_terms=8000, recips=c.recips)
+    return None if k is None else tests[k][0]
+
+
+def _angle_relation(c, t, base_v, sign, offsets, period):
+    """t == sign*base_v + off + period*m for an integer m and one of the offsets"""
+    m = c.fresh('wind', 'int')
+    if len(offsets) == 1:
+        c.assumptions.append(t == sign * base_v + offsets[0] + period * z3.ToReal(m))
+    else:
+        c.assumptions.append(z3.Or([t == sign * base_v + o + period * z3.ToReal(m) for o in offsets]))
+
+
 def _atan2(y, x):
     yt, xt = Term.lift(y), Term.lift(x)
     if yt is None or xt is None:
@@ -786,12 +827,39 @@ def _atan2(y, x):
     if c.concolic:
         return Term(yt.e, None, _math.atan2(yt.val, xt.val))
     ye, xe = yt.e, xt.e
+    p = zpi()
+    mk = ('atan2', ye.get_id(), xe.get_id())
+    if mk in c.div_memo:
+        return c.div_memo[mk][0]
+    t = _atan2_new(c, yt, xt, ye, xe, p)
+    c.div_memo[mk] = (t, ye, xe)
+    return t
+
+
+def _atan2_new(c, yt, xt, ye, xe, p):
+    # resolution: (y, x) parallel to the (sin, cos) pair of a known atom
+    hit = _match_atom(c, [(nm, ye * ca - xe * sa) for nm, (va, sa, ca) in c.atoms.items()])
+    if hit is not None:
+        va, sa, ca = c.atoms[hit]
+        k = Term(ye) * Term(sa) + Term(xe) * Term(ca)          # (y, x) == k * (sin a, cos a)
+        k = _canonical(c, k)        # same factor written differently -> same decision (no duplicate forks)
+        if (k > 0):
+            t, s, co = new_atom('atan2', kind='atan2', pair=(sa, ca))
+            _angle_relation(c, t.e, va, 1, [0], 2 * p)
+        elif (k < 0):
+            t, s, co = new_atom('atan2', kind='atan2', pair=(-sa, -ca))
+            _angle_relation(c, t.e, va, 1, [p], 2 * p)
+        else:
+            return Term.lift(0)
+        c.assumptions += [t.e > -p, t.e <= p]
+        c.notes.append(('atan2-resolved', hit))
+        c.nlemmas = getattr(c, 'nlemmas', 0) + 1
+        return t
     t, s, co = new_atom('atan2', kind='atan2')
     nz = z3.Or(xe != 0, ye != 0)
     c.assumptions += [s.e * xe == co.e * ye, co.e * xe + s.e * ye >= 0,
                       z3.Implies(z3.Not(nz), z3.And(s.e == 0, co.e == 1))]
-    p = zpi()
-    c.assumptions += [t.e >= -p, t.e <= p]
+    c.assumptions += [t.e > -p, t.e <= p]
     if c.values:
         c.assumptions += [z3.Implies(z3.Not(nz), t.e == 0),
                           z3.Implies(ye > 0, z3.And(t.e > 0, t.e < p)),
@@ -819,6 +887,24 @@ def _acos(x):
         return Term(x.e, None, _math.acos(x.val))
     prior = list(c.atoms.items())
     p = zpi()
+    tests = []
+    for nm, (va, sa, ca) in c.atoms.items():
+        tests += [((nm, 1), x.e - ca), ((nm, -1), x.e + ca)]
+    hit = _match_atom(c, tests)
+    if hit is not None:
+        nm, sg = hit
+        va, sa, ca = c.atoms[nm]
+        # cos(phi) = sg*cos(a), sin(phi) = |sin a|, phi in [0, pi]
+        if (Term(sa) >= 0):
+            t, s, co = new_atom('acos', kind='acos', pair=(sa, sg * ca))
+            _angle_relation(c, t.e, va, sg, [0] if sg == 1 else [p], 2 * p)
+        else:
+            t, s, co = new_atom('acos', kind='acos', pair=(-sa, sg * ca))
+            _angle_relation(c, t.e, va, -sg, [0] if sg == 1 else [p], 2 * p)
+        c.assumptions += [t.e >= 0, t.e <= p]
+        c.notes.append(('acos-resolved', nm))
+        c.nlemmas = getattr(c, 'nlemmas', 0) + 1
+        return t
     t, s, co = new_atom('acos', kind='acos')
     c.assumptions += [co.e == x.e, s.e >= 0, t.e >= 0, t.e <= p]
     if c.values:
@@ -847,6 +933,24 @@ def _asin(x):
     if c.concolic:
         return Term(x.e, None, _math.asin(x.val))
     p = zpi()
+    tests = []
+    for nm, (va, sa, ca) in c.atoms.items():
+        tests += [((nm, 1), x.e - sa), ((nm, -1), x.e + sa)]
+    hit = _match_atom(c, tests)
+    if hit is not None:
+        nm, sg = hit
+        va, sa, ca = c.atoms[nm]
+        # sin(phi) = sg*sin(a), cos(phi) = |cos a|, phi in [-pi/2, pi/2]
+        if (Term(ca) >= 0):
+            t, s, co = new_atom('asin', kind='asin', pair=(sg * sa, ca))
+            _angle_relation(c, t.e, va, sg, [0], 2 * p)
+        else:
+            t, s, co = new_atom('asin', kind='asin', pair=(sg * sa, -ca))
+            _angle_relation(c, t.e, va, -sg, [p], 2 * p)
+        c.assumptions += [t.e >= -p / 2, t.e <= p / 2]
+        c.notes.append(('asin-resolved', nm))
+        c.nlemmas = getattr(c, 'nlemmas', 0) + 1
+        return t
     t, s, co = new_atom('asin', kind='asin')
     c.assumptions += [s.e == x.e, co.e >= 0, t.e >= -p / 2, t.e <= p / 2]
     if c.values:
@@ -865,6 +969,26 @@ def _atan(x):
     if c.concolic:
         return Term(x.e, None, _math.atan(x.val))
     p = zpi()
+    tests = []
+    for nm, (va, sa, ca) in c.atoms.items():
+        tests += [((nm, 1), x.e * ca - sa), ((nm, -1), x.e * ca + sa)]
+    hit = _match_atom(c, tests)
+    if hit is not None:
+        nm, sg = hit
+        va, sa, ca = c.atoms[nm]
+        # tan(phi) = sg*tan(a), cos(phi) > 0
+        if (Term(ca) > 0):
+            t, s, co = new_atom('atan', kind='atan', pair=(sg * sa, ca))
+            _angle_relation(c, t.e, va, sg, [0], 2 * p)
+        elif (Term(ca) < 0):
+            t, s, co = new_atom('atan', kind='atan', pair=(-sg * sa, -ca))
+            _angle_relation(c, t.e, va, sg, [p], 2 * p)
+        else:
+            raise NotEncodable('atan resolution with cos == 0')
+        c.assumptions += [t.e > -p / 2, t.e < p / 2]
+        c.notes.append(('atan-resolved', nm))
+        c.nlemmas = getattr(c, 'nlemmas', 0) + 1
+        return t
     t, s, co = new_atom('atan', kind='atan')
     c.assumptions += [co.e > 0, s.e == x.e * co.e, t.e > -p / 2, t.e < p / 2]
     if c.values:
